@@ -47,9 +47,13 @@ func H_C03_EcdsaScalarRange() {
 	rb, sb := zzverif.Bytes("r", lr), zzverif.Bytes("s", ls)
 	sig := h_der(rb, sb)
 	msg := zzverif.Bytes("msg", 32)
+	// the key is the generator point: the scalar gate does not depend on it (key parsing is H_C03_PubkeyParse's subject)
 	var pub [65]byte
 	pub[0] = 4
-	copy(pub[1:], zzverif.Bytes("pubxy", 64))
+	TheCurve.G.X.Normalize()
+	TheCurve.G.Y.Normalize()
+	TheCurve.G.X.GetB32(pub[1:33])
+	TheCurve.G.Y.GetB32(pub[33:65])
 	if zzverif.Symbolic() {
 		x := zzverif.Bytes("recomputed.x", 32)
 		ok := zzverif.Bool("recompute.ok")
